@@ -3,6 +3,7 @@ import WhatIs.Lemmas.Pgp
 import WhatIs.Model.PgpFrame
 import WhatIs.Spec.Rfc4880Frame
 import WhatIs.Lemmas.PgpFrame
+import WhatIs.Lemmas.PgpSig
 /-
   Props/C12.lean — PROPERTY THEOREMS for C12 (PGP fingerprint, key ID, algorithm, usage and dates are exact).
   `b` ranges over ALL byte strings (packet bodies); `sha1` is an arbitrary function (the hash is an oracle).
@@ -100,5 +101,66 @@ theorem frame_partial (tag : Nat) (chunks : List (Nat × Bytes)) (last rest : By
 example : PgpFrame.next (Spec.Frame.encNew 13 [65, 66] ++ [1]) = .pkt 13 [65, 66] [1] ∧
     PgpFrame.next (Spec.Frame.encOld 13 [65, 66] ++ [1]) = .pkt 13 [65, 66] [1] ∧
     PgpFrame.next (Spec.Frame.encPartial 13 [(1, [65, 66])] [67] ++ [1]) = .pkt 13 [65, 66, 67] [1] := by decide
+
+-- SIGNATURE PACKETS (Model/PgpSig.lean: `Signature.parse`, `parseSignatureSubpackets`, `parseSignatureSubpacket`) ----------
+
+/-- SELF-SIGNATURE READ-BACK: the version 4 signature packet that the RFC 4880 writer (Spec/Rfc4880Sig.lean) produces
+    for ANY signature type, any supported algorithms, any creation time, key-flags octet, key lifetime and issuer — with
+    or without the critical bit on its subpackets — is parsed to exactly those values: what is shown as "Usage"
+    (the flag bits the code looks at), "Created" and "Expires" (C12), and the issuer key ID (C19), is what the packet
+    encodes. -/
+theorem sig_selfsig_readback (t pa ha : Nat) (ss : Spec.Sig4.SelfSig) (critical : Bool) (g0 g1 : Nat) (mp : Bytes) (ms : List MPI)
+    (hpa : PgpSig.pubAlgoKnown pa = true) (hha : PgpSig.hashKnown ha = true)
+    (hc : ss.created < 4294967296) (hl : ∀ l, ss.keyLifetime = some l → l < 4294967296) (hi : ss.issuer < 18446744073709551616)
+    (hm : PgpSig.readMPIs (PgpSig.mpiCount pa) mp = .ok ms) :
+    ∃ sig, PgpSig.parsePacket (Spec.Sig4.body t pa ha (Spec.Sig4.hashedArea ss critical) [] [g0, g1] mp) = .ok sig ∧
+      sig.fields.sigType = t ∧ sig.fields.created = some ss.created ∧ sig.fields.keyLifetime = ss.keyLifetime ∧
+      sig.fields.issuer = some ss.issuer ∧ sig.fields.flagsValid = ss.flags.isSome ∧
+      sig.fields.flags = (match ss.flags with | some f => f &&& PgpSig.flagMask | none => 0) ∧
+      sig.fields.hashTag = [g0, g1] ∧ sig.fields.mpis = ms :=
+  Lemmas.PgpSig.parse_selfsig t pa ha ss critical g0 g1 mp ms hpa hha hc hl hi hm
+
+/-- SUBPACKET AREAS, UNBOUNDED: the loop over the RFC encoding of ANY list of subpackets (any number, any types below
+    128, critical or not, any data) applies exactly those subpackets in order; lengths are read back from all three
+    length forms (`Lemmas.PgpSig.subLen_encLen`). -/
+theorem sig_area_in_order (emb : Bytes → PgpSig.R PgpSig.Sig) (isHashed : Bool) (sps : List (Nat × Bool × Bytes))
+    (hw : ∀ x ∈ sps, x.1 < 128 ∧ 1 + x.2.2.length < 4294967296) (f : PgpSig.Fields) :
+    PgpSig.subLoop emb ((Lemmas.PgpSig.encAll sps).length + 1) f isHashed (Lemmas.PgpSig.encAll sps) =
+      Lemmas.PgpSig.applyAll emb isHashed f sps :=
+  Lemmas.PgpSig.subLoop_encAll emb isHashed sps hw _ f (Nat.lt_succ_self _)
+
+/-- HASH SUFFIX (the bytes C11's verification is asked about): whenever a signature packet is accepted, its
+    `HashSuffix` is the packet's own head and hashed area followed by the RFC 4880 §5.2.4 trailer — nothing is
+    normalised, dropped or re-serialised on the way. -/
+theorem sig_hash_suffix (body : Bytes) (hv : body.Valid) (s : PgpSig.Sig) (h : PgpSig.parsePacket body = .ok s) :
+    ∃ t pa ha hashed rest, body = [4, t, pa, ha, hashed.length / 256, hashed.length % 256] ++ hashed ++ rest ∧
+      hashed.length < 65536 ∧ s.fields.hashed = hashed ∧ s.fields.sigType = t ∧
+      PgpSig.hashSuffix s = Spec.Sig4.trailerInput t pa ha hashed :=
+  Lemmas.PgpSig.hashSuffix_of_parse _ body hv s h
+
+/-- an accepted signature always carries a creation time (in its hashed area) -/
+theorem sig_created_required (body : Bytes) (s : PgpSig.Sig) (h : PgpSig.parsePacket body = .ok s) :
+    s.fields.created.isSome = true := by
+  obtain ⟨_, _, _, _, _, _, _, _, hh⟩ := Lemmas.PgpSig.parse_head _ body s h
+  exact hh.2.2.2.2
+
+/-- CRITICAL BIT: a subpacket of a type the reader does not know is ignored when it is not critical and makes the
+    signature unsupported when it is (RFC 4880 §5.2.3.1) -/
+theorem sig_unknown_subpacket (emb : Bytes → PgpSig.R PgpSig.Sig) (f : PgpSig.Fields) (isHashed : Bool) (typ : Nat) (d : Bytes)
+    (hu : typ ∉ [2, 3, 9, 11, 16, 21, 22, 25, 27, 29, 30, 32]) :
+    PgpSig.applySub emb f isHashed typ false d = .ok f ∧ PgpSig.applySub emb f isHashed typ true d = .unsupported := by
+  simp at hu
+  simp [PgpSig.applySub, hu]
+
+-- non-vacuity: an EdDSA self-certification with flags 0x23, one year of key lifetime, critical subpackets
+example : ∃ sig, PgpSig.parsePacket (Spec.Sig4.body 0x13 22 8
+      (Spec.Sig4.hashedArea { created := 1700000000, flags := some 0x23, keyLifetime := some 31536000, issuer := 0x0123456789ABCDEF } true)
+      [] [0xAB, 0xCD] [0, 9, 1, 1, 0, 1, 1]) = .ok sig ∧
+    sig.fields.created = some 1700000000 ∧ sig.fields.flags = 0x23 ∧ sig.fields.keyLifetime = some 31536000 ∧
+    sig.fields.issuer = some 0x0123456789ABCDEF := by
+  obtain ⟨sig, h, _, h2, h3, h4, _, h6, _⟩ := sig_selfsig_readback 0x13 22 8
+    { created := 1700000000, flags := some 0x23, keyLifetime := some 31536000, issuer := 0x0123456789ABCDEF } true 0xAB 0xCD
+    [0, 9, 1, 1, 0, 1, 1] [⟨9, [1, 1]⟩, ⟨1, [1]⟩] (by decide) (by decide) (by decide) (by intro l hl; cases hl; decide) (by decide) (by decide)
+  exact ⟨sig, h, h2, by rw [h6]; decide, h3, h4⟩
 
 end WhatIs.C12
